@@ -1,7 +1,129 @@
-use crate::State;
+// C10: file-info tables and patch lists.  C12: SHA-1 through FileInfo::new.
 use crate::util::*;
-use serde_json::Value;
+use crate::{State, guarded};
+use physis::fiin::FileInfo;
+use physis::patchlist::{PatchEntry, PatchList, PatchListType};
+use serde_json::{Value, json};
 
-pub fn run(_st: &mut State, op: &str, _cmd: &Value) -> Value {
-    toolerror(&format!("unknown op {op}"))
+/// content is given either literally or as the pattern the specification
+/// regenerates itself: byte i = (a*i + b + i/251) mod 256
+pub fn content_of(f: &Value) -> Vec<u8> {
+    if let Some(p) = f.get("pattern") {
+        let (n, a, b) = (geti(p, "n") as usize, geti(p, "a") as usize, geti(p, "b") as usize);
+        (0..n).map(|i| ((a * i + b + i / 251) % 256) as u8).collect()
+    } else {
+        get_bytes(&f["content"])
+    }
+}
+
+fn kind(cmd: &Value) -> PatchListType {
+    if cmd["kind"] == "boot" {
+        PatchListType::Boot
+    } else {
+        PatchListType::Game
+    }
+}
+
+fn digits(v: &Value) -> String {
+    get_str(v)
+}
+
+fn project_list(pl: &PatchList) -> Value {
+    json!({
+        "total": sbytes(&pl.patch_length.to_string()),
+        "patches": pl.patches.iter().map(|p| json!({
+            "length": sbytes(&p.length.to_string()),
+            "size": sbytes(&p.size_on_disk.to_string()),
+            "version": sbytes(&p.version),
+            "hbs": sbytes(&p.hash_block_size.to_string()),
+            "hashes": p.hashes.iter().map(|h| sbytes(h)).collect::<Vec<Value>>(),
+            "url": sbytes(&p.url),
+        })).collect::<Vec<Value>>()
+    })
+}
+
+pub fn run(st: &mut State, op: &str, cmd: &Value) -> Value {
+    match op {
+        "meta.fiin" => {
+            let mut dir = st.workdir.clone();
+            dir.push(format!("fiin{}", geti(cmd, "case")));
+            let _ = std::fs::remove_dir_all(&dir);
+            std::fs::create_dir_all(&dir).unwrap();
+            let mut paths = vec![];
+            for f in cmd["files"].as_array().cloned().unwrap_or_default() {
+                let mut p = dir.clone();
+                p.push(get_str(&f["name"]));
+                std::fs::write(&p, content_of(&f)).unwrap();
+                paths.push(p.to_str().unwrap().to_string());
+            }
+            let refs: Vec<&str> = paths.iter().map(|s| s.as_str()).collect();
+            let r = guarded(|| {
+                let Some(fi) = FileInfo::new(&refs) else {
+                    return fail();
+                };
+                let Some(table) = fi.write_to_buffer() else {
+                    return fail();
+                };
+                let parsed = FileInfo::from_existing(&table);
+                let pv = opt(parsed.as_ref(), |p| {
+                    Value::Array(p.entries.iter().map(|e| json!({
+                        "size": e.file_size, "name": sbytes(&e.file_name), "sha1": bytes(&e.sha1)
+                    })).collect())
+                });
+                let rewritten = opt(parsed.and_then(|p| p.write_to_buffer()), |b| bytes(&b));
+                value(json!({"table": bytes(&table), "parsed": pv, "rewritten": rewritten}))
+            });
+            let _ = std::fs::remove_dir_all(&dir);
+            r
+        }
+        "meta.fiin.parse" => {
+            let b = get_bytes(&cmd["bytes"]);
+            guarded(|| {
+                let parsed = FileInfo::from_existing(&b);
+                value(opt(parsed, |p| {
+                    json!({"entries": p.entries.iter().map(|e| json!({
+                        "size": e.file_size, "name": sbytes(&e.file_name), "sha1": bytes(&e.sha1)
+                    })).collect::<Vec<Value>>(),
+                    "rewritten": opt(p.write_to_buffer(), |b| bytes(&b))})
+                }))
+            })
+        }
+        "meta.plist.render" => {
+            let mut total: u64 = 0;
+            let patches: Vec<PatchEntry> = cmd["patches"].as_array().cloned().unwrap_or_default().iter().map(|p| {
+                let length: i64 = digits(&p["length"]).parse().unwrap_or(0);
+                total = total.wrapping_add(length as u64);
+                PatchEntry {
+                    url: get_str(&p["url"]),
+                    version: get_str(&p["version"]),
+                    hash_block_size: digits(&p["hbs"]).parse().unwrap_or(0),
+                    length,
+                    size_on_disk: digits(&p["size"]).parse().unwrap_or(0),
+                    hashes: p["hashes"].as_array().cloned().unwrap_or_default().iter().map(get_str).collect(),
+                    unknown_a: digits(&p["a"]).parse().unwrap_or(0),
+                    unknown_b: digits(&p["b"]).parse().unwrap_or(0),
+                }
+            }).collect();
+            let pl = PatchList {
+                id: get_str(&cmd["id"]),
+                patch_length: total,
+                content_location: get_str(&cmd["loc"]),
+                requested_version: String::new(),
+                patches,
+            };
+            let text = guarded(|| value(sbytes(&pl.to_string(kind(cmd)))));
+            let parsed = if text["outcome"] == "value" {
+                let t = get_str(&text["v"]);
+                guarded(|| value(project_list(&PatchList::from_string(kind(cmd), &t))))
+            } else {
+                json!({"outcome": "skipped"})
+            };
+            json!({"text": text, "parsed": parsed})
+        }
+        "meta.plist.parse" => {
+            let t = get_str(&cmd["text"]);
+            guarded(|| value(project_list(&PatchList::from_string(kind(cmd), &t))))
+        }
+        _ => toolerror(&format!("unknown op {op}")),
+    }
 }
